@@ -409,6 +409,22 @@ pub struct Obs {
     pub compressed_len: usize,
 }
 
+impl Obs {
+    /// Drop what a judge does not need once the case has run (serialized prover
+    /// keys are ~25 MB and snapshots ~2 MB at 2^12 constraints; thousands of
+    /// retained cases would not fit in memory). Public-input rows are kept.
+    pub fn slim(mut self) -> Self {
+        for r in [&mut self.direct, &mut self.compressed, &mut self.serialized] {
+            r.prover_bytes = Vec::new();
+        }
+        if let Some(s) = self.snap.as_mut() {
+            s.gates = Vec::new();
+            s.witnesses = Vec::new();
+        }
+        self
+    }
+}
+
 #[derive(Default, Clone)]
 pub struct RouteObs {
     pub compile_err: Option<String>,
